@@ -8,7 +8,9 @@ import common as C
 import gen as G
 
 LEVEL = "proof"
-TRUSTED = ["model: coq/Model/Restrict.v (restrict_scan); theorems in coq/Proofs/RestrictProofs.v"]
+TRUSTED = ["model: coq/Model/Restrict.v (restrict_scan); theorems in coq/Proofs/RestrictProofs.v, coq/Proofs/C03Compose.v; "
+           "support and constructor clauses are stated on the constructor model of coq/Model/Store.v (mk_ts_sup), data rows abstracted; "
+           "column labels / metadata have no model: that clause is checked on the implementation only"]
 ASSUMPTIONS = ["timestamps sorted and IntervalSet canonical at kernel entry (guaranteed by the constructors: C01, C04)",
                "kernel cases are realised on a 1 us lattice; comparison-only kernel, so behaviour depends on order type only"]
 
@@ -27,6 +29,9 @@ def oracle_cnt(ts, ep):
     return [sum(1 for t in ts if s <= t <= e) for s, e in ep]
 
 
+N_RANDOM = {"quick": 300, "thorough": 5000}
+
+
 def kernel_cases(tier, seed):
     N = 7 if tier == "quick" else 9
     pts = G.lattice(N)
@@ -36,7 +41,7 @@ def kernel_cases(tier, seed):
         for ts in tss:
             yield ts, ep
     rng = random.Random(seed * 7919 + 3)
-    for _ in range(300 if tier == "quick" else 5000):
+    for _ in range(N_RANDOM[tier]):
         ep = G.rand_canonical_iset(rng, 8)
         ts = G.rand_sorted_ts(rng, 30, ep)
         yield ts, ep
@@ -47,10 +52,15 @@ def run(res, tier, seed):
     warnings.simplefilter("ignore")
     res.rule = ("kernel: ALL (canonical IntervalSet with <=3(4) intervals, sorted multiset of <=3(4) samples) on a 7(9)-point 1us lattice "
                 "[complete: every order type incl. samples on starts/ends, duplicates, empty series, empty set, set before/after/between data] "
-                "+ seeded random large cases; public: Ts/Tsd/TsdFrame/TsdTensor/TsGroup.restrict and constructor(time_support=) on a subsample. "
+                "+ seeded random large cases; public, on a subsample (every 25th with the empty series; every other one stretched to a 3us lattice), each case with a second IntervalSet ep2: "
+                "Ts/Tsd/TsdFrame/TsdTensor.restrict (samples, rows, labels, support), idempotence (samples, rows, support), "
+                "restrict(ep).restrict(ep2) = exact filter by both and = restrict(ep.intersect(ep2)) on samples farther than 1us from every endpoint, "
+                "constructor(time_support=) in s/ms/us and on shuffled timestamps; TsGroup.restrict member-wise (Ts and Tsd members, member supports) for a group "
+                "whose support is wide / the default union / the complement of ep (ep fills the gaps of the support and shares all its endpoints with it). "
                 "non-trivial = at least one sample and one interval; distinct = distinct (ts, ep)")
     res.exhaustive = True
     cases = list(kernel_cases(tier, seed))
+    n_lattice = len(cases) - N_RANDOM[tier]
     # two thirds of the cases are translated to straddle / lie below t = 0 (zero-initialised buffers: sign matters)
     offs = [0, -3000, -10**7]
     cases = [([t + offs[n % 3] for t in ts], [(a + offs[n % 3], b + offs[n % 3]) for a, b in ep]) for n, (ts, ep) in enumerate(cases)]
@@ -98,18 +108,34 @@ def run(res, tier, seed):
         if n < 3 or (n % 9973 == 0):
             res.sample({"ts": ts, "ep": ep, "idx": impl[0], "count": impl[1]})
 
-    # public API
+    # public API: every class, empty series included; each case gets a second IntervalSet ep2 (same translation)
+    # for the composition clause
     rng = random.Random(seed + 17)
-    sub = rng.sample(cases, 12000 if tier == "thorough" else 1500)
+    picks = rng.sample(range(n_lattice), 9000 if tier == "thorough" else 1000) + \
+        rng.sample(range(n_lattice, len(cases)), 1000 if tier == "thorough" else 100)
     pub = 0
-    for ts, ep in sub:
-        if len(ts) < 1:
-            continue
+    for n in picks:
+        ts, ep = cases[n]
+        if pub % 25 == 24:
+            ts = []          # the empty series against every kind of IntervalSet
+        off = offs[n % 3]
+        if n < n_lattice:
+            m = rng.randrange(n_lattice)
+            m -= (m - n) % 3
+            ep2 = cases[m if m >= 0 else n][1]
+        else:
+            ep2 = [(a + off, b + off) for a, b in
+                   G.rand_canonical_iset(rng, 8, coincide=sorted(set(x - off for iv in ep for x in iv)))]
+        if pub % 2:
+            # every other case on a 3 us lattice: same order types, and every sample off the endpoints is now farther
+            # than 1 us from all of them (the composition clause speaks about those)
+            ts, ep, ep2 = [3 * x for x in ts], [(3 * a, 3 * b) for a, b in ep], [(3 * a, 3 * b) for a, b in ep2]
         pub += 1
         try:
-            v = public_case(nap, ts, ep)
+            v = public_case(nap, ts, ep, ep2, res)
         except Exception as ex:
-            v = {"key": {"op": "public", "part": "exception"}, "what": "public restrict/constructor raised %s: %s" % (type(ex).__name__, str(ex)[:120]), "input": {"ts": ts, "ep": ep}}
+            v = {"key": {"op": "public", "part": "exception", "empty_series": not ts},
+                 "what": "public restrict/constructor raised %s: %s" % (type(ex).__name__, str(ex)[:120]), "input": {"ts": ts, "ep": ep, "ep2": ep2}}
         res.evaluations += 1
         if v:
             res.violations.append(v)
@@ -124,75 +150,172 @@ def _sup(obj):
     return [(C.to_ns(s), C.to_ns(e)) for s, e in obj.time_support.values]
 
 
-def public_case(nap, ts, ep):
-    """returns a violation dict or None"""
+def _iset(nap, ep):
+    return nap.IntervalSet(G.arr([s for s, _ in ep]), G.arr([e for _, e in ep]))
+
+
+def _on_endpoint(ts, ep):
+    pts = set(x for iv in ep for x in iv)
+    return any(t in pts for t in ts)
+
+
+def _far(x, pts):
+    """farther than 1 us from every endpoint"""
+    return all(abs(x - p) > 1000 for p in pts)
+
+
+def _make(nap, name, t, d, **kw):
+    if name == "Ts":
+        return nap.Ts(t, **kw)
+    if name == "TsdFrame":
+        return nap.TsdFrame(t, d, columns=["a", "b", "c"], **kw)
+    return getattr(nap, name)(t, d, **kw)
+
+
+def public_case(nap, ts, ep, ep2=None, res=None):
+    """The statement, clause by clause, on the public API. Returns a violation dict or None."""
+    ep2 = list(ep) if ep2 is None else ep2
     t = G.arr(ts)
     n = len(ts)
-    epo = nap.IntervalSet(G.arr([s for s, _ in ep]), G.arr([e for _, e in ep]))
+    epo, epo2 = _iset(nap, ep), _iset(nap, ep2)
     d1 = np.arange(n) + 100
     d2 = np.stack([np.arange(n) + 100, np.arange(n) + 200, np.arange(n) + 300], axis=1)
     d3 = np.arange(n * 4).reshape(n, 2, 2) + 100
     exp_i = oracle_idx(ts, ep)
     exp_t = [ts[i] for i in exp_i]
     exp_sup = list(ep) if exp_i else []
-    inp = {"ts": ts, "ep": ep}
+    exp2_i = [i for i in exp_i if G.mem(ts[i], ep2)]
+    exp2_t = [ts[i] for i in exp2_i]
+    exp2_sup = list(ep2) if exp2_i else []
+    endpoints = set(x for iv in list(ep) + list(ep2) for x in iv)
+    far_i = [i for i in range(n) if _far(ts[i], endpoints)]
+    inp = {"ts": ts, "ep": ep, "ep2": ep2}
+    trig = {"empty_series": n == 0, "sample_on_endpoint": _on_endpoint(ts, ep)}
+    if res is not None:
+        res.count("public_empty_series", int(n == 0))
+        res.count("public_compose_far_samples", len(far_i))
+        res.count("public_compose_far_samples_kept", len([i for i in far_i if i in set(exp2_i)]))
+
+    def key(op, part, **more):
+        k = {"op": op, "part": part}
+        k.update(trig)
+        k.update(more)
+        return k
+
     objs = {
         "Ts": nap.Ts(t),
         "Tsd": nap.Tsd(t, d1),
         "TsdFrame": nap.TsdFrame(t, d2, columns=["a", "b", "c"], metadata={"m": [7, 8, 9]}),
         "TsdTensor": nap.TsdTensor(t, d3),
     }
-    datas = {"Tsd": d1, "TsdFrame": d2, "TsdTensor": d3}
+    datas = {"Ts": None, "Tsd": d1, "TsdFrame": d2, "TsdTensor": d3}
+    perm = list(range(n))
+    random.Random(n * 31 + (sum(ts) % 1009)).shuffle(perm)
     for name, o in objs.items():
+        d = datas[name]
         r = o.restrict(epo)
         if type(r) is not type(o):
-            return {"key": {"op": name + ".restrict"}, "what": "class changed", "input": inp}
+            return {"key": key(name + ".restrict", "class"), "what": "class changed", "input": inp}
         if _ticks(r.t) != exp_t:
-            return {"key": {"op": name + ".restrict"}, "what": "restrict returns the wrong samples", "input": inp,
+            return {"key": key(name + ".restrict", "samples"), "what": "restrict returns the wrong samples", "input": inp,
                     "impl": _ticks(r.t), "expected": exp_t}
-        if name != "Ts" and not np.array_equal(r.values, datas[name][exp_i]):
-            return {"key": {"op": name + ".restrict"}, "what": "a sample lost its own data row", "input": inp}
+        if d is not None and not np.array_equal(r.values, d[exp_i]):
+            return {"key": key(name + ".restrict", "rows"), "what": "a sample lost its own data row", "input": inp}
         if _sup(r) != exp_sup:
-            return {"key": {"op": name + ".restrict", "part": "support"}, "what": "time support of the result is not ep (or empty)",
+            return {"key": key(name + ".restrict", "support"), "what": "time support of the result is not ep (or empty)",
                     "input": inp, "impl": _sup(r), "expected": exp_sup}
         if name == "TsdFrame":
             if list(r.columns) != ["a", "b", "c"] or list(r.metadata["m"]) != [7, 8, 9]:
-                return {"key": {"op": "TsdFrame.restrict", "part": "labels"}, "what": "columns/metadata changed", "input": inp}
-        # idempotence
+                return {"key": key("TsdFrame.restrict", "labels"), "what": "columns/metadata changed", "input": inp}
+        # idempotence: samples, rows and support
         rr = r.restrict(epo)
-        if _ticks(rr.t) != exp_t:
-            return {"key": {"op": name + ".restrict", "part": "idempotence"}, "what": "restricting twice changes the result", "input": inp}
-        # constructor with time_support = construct then restrict
-        if name == "Ts":
-            c = nap.Ts(t, time_support=epo)
-        elif name == "TsdFrame":
-            c = nap.TsdFrame(t, d2, time_support=epo, columns=["a", "b", "c"])
-        else:
-            c = type(o)(t, datas[name], time_support=epo)
-        if _ticks(c.t) != exp_t or (name != "Ts" and not np.array_equal(c.values, datas[name][exp_i])):
-            return {"key": {"op": name + "(time_support=)"}, "what": "constructor with time_support differs from construct-then-restrict", "input": inp}
-        # the same through the other time units (timestamps given in ms / us, support in seconds)
+        if type(rr) is not type(o) or _ticks(rr.t) != exp_t or (d is not None and not np.array_equal(rr.values, d[exp_i])) or _sup(rr) != exp_sup:
+            return {"key": key(name + ".restrict", "idempotence"), "what": "restricting twice by ep changes the samples, the rows or the support", "input": inp}
+        # composition: a then b is the exact filter by both, and agrees with restrict(a.intersect(b)) on every sample
+        # farther than 1 us from every endpoint of a and b
+        r2 = r.restrict(epo2)
+        if _ticks(r2.t) != exp2_t or (d is not None and not np.array_equal(r2.values, d[exp2_i])) or _sup(r2) != exp2_sup:
+            return {"key": key(name + ".restrict", "compose"), "what": "restrict(a).restrict(b) is not the samples (rows, support) inside both a and b",
+                    "input": inp, "impl": _ticks(r2.t), "expected": exp2_t}
+        ri = o.restrict(epo.intersect(epo2))
+        got = [(x, (None if d is None else np.asarray(v).tolist())) for x, v in zip(_ticks(ri.t), (ri.t if d is None else ri.values)) if _far(x, endpoints)]
+        want = [(ts[i], (None if d is None else np.asarray(d[i]).tolist())) for i in exp2_i if _far(ts[i], endpoints)]
+        if got != want:
+            return {"key": key(name + ".restrict", "compose_intersect"),
+                    "what": "restrict(a).restrict(b) and restrict(a.intersect(b)) differ on a sample farther than 1us from every endpoint",
+                    "input": inp, "impl": [g[0] for g in got], "expected": [w[0] for w in want]}
+        # constructor with time_support = construct then restrict (sorted input, the three time units, unsorted input)
+        c = _make(nap, name, t, d, time_support=epo)
+        if _ticks(c.t) != exp_t or (d is not None and not np.array_equal(c.values, d[exp_i])):
+            return {"key": key(name + "(time_support=)", "samples"), "what": "constructor with time_support differs from construct-then-restrict", "input": inp}
         for units, f in (("ms", 1e3), ("us", 1e6)):
             tu = np.asarray(ts, dtype=np.float64) / (1e9 / f)
-            if name == "Ts":
-                cu = nap.Ts(tu, time_units=units, time_support=epo)
-            elif name == "TsdFrame":
-                cu = nap.TsdFrame(tu, d2, time_units=units, time_support=epo, columns=["a", "b", "c"])
-            else:
-                cu = type(o)(tu, datas[name], time_units=units, time_support=epo)
-            if _ticks(cu.t) != exp_t or (name != "Ts" and not np.array_equal(cu.values, datas[name][exp_i])):
-                return {"key": {"op": name + "(time_support=)", "units": units}, "what": "constructor with time_units and time_support differs from construct-then-restrict",
+            cu = _make(nap, name, tu, d, time_units=units, time_support=epo)
+            if _ticks(cu.t) != exp_t or (d is not None and not np.array_equal(cu.values, d[exp_i])):
+                return {"key": key(name + "(time_support=)", "samples", units=units), "what": "constructor with time_units and time_support differs from construct-then-restrict",
                         "input": inp, "impl": _ticks(cu.t), "expected": exp_t}
-    # TsGroup member-wise
-    wide = nap.IntervalSet(t[0] - 1.0, t[-1] + 1.0)
-    g = nap.TsGroup({3: nap.Ts(t), 1: nap.Ts(t[: max(1, n // 2)])}, time_support=wide, metadata={"lab": ["x", "y"]})
-    rg = g.restrict(epo)
-    if list(rg.keys()) != [1, 3] or list(rg.metadata["lab"]) != list(g.metadata["lab"]):
-        return {"key": {"op": "TsGroup.restrict", "part": "keys"}, "what": "keys/metadata changed", "input": inp}
-    if _ticks(rg[3].t) != exp_t or _ticks(rg[1].t) != [ts[i] for i in oracle_idx(ts[: max(1, n // 2)], ep)]:
-        return {"key": {"op": "TsGroup.restrict"}, "what": "member restrict wrong", "input": inp, "impl": _ticks(rg[3].t), "expected": exp_t}
-    if [(C.to_ns(s), C.to_ns(e)) for s, e in rg.time_support.values] != list(ep):
-        return {"key": {"op": "TsGroup.restrict", "part": "support"}, "what": "group support is not ep", "input": inp}
+        if n > 1 and perm != sorted(perm):
+            tp, dp = t[perm], (None if d is None else d[perm])
+            c1 = _make(nap, name, tp, dp, time_support=epo)
+            c2 = _make(nap, name, tp, dp).restrict(epo)
+            if _ticks(c1.t) != _ticks(c2.t) or _ticks(c1.t) != exp_t or (d is not None and not np.array_equal(c1.values, c2.values)):
+                return {"key": key(name + "(time_support=)", "samples", unsorted_input=True),
+                        "what": "constructor with time_support differs from construct-then-restrict on unsorted timestamps", "input": dict(inp, perm=perm)}
+    return group_case(nap, ts, ep, t, d1, inp, res)
+
+
+def group_case(nap, ts, ep, t, d1, inp, res=None):
+    """TsGroup.restrict is member-wise: Ts and Tsd members, groups whose own support (i) is wide, (ii) is the default union of
+    the members' [first, last] supports, (iii) is the complement of ep (every interval of ep fills a gap of the support: each
+    endpoint of ep is shared with the support, so only samples sitting exactly on those endpoints survive)."""
+    n = len(ts)
+    epo = _iset(nap, ep)
+    h = max(1, n // 2) if n else 0
+    pts = list(ts) + [x for iv in ep for x in iv] + [0]
+    lo, hi = min(pts) - 10**9, max(pts) + 10**9
+    groups = {"wide": [(lo, hi)]}
+    if n and ts[0] < ts[-1]:
+        groups["default"] = None
+    if ep:
+        bounds = [lo] + [x for iv in ep for x in iv] + [hi]
+        groups["complement_of_ep"] = list(zip(bounds[0::2], bounds[1::2]))
+    for gname, sup in groups.items():
+        mem_in = {3: nap.Ts(t), 1: nap.Tsd(t[:h], d1[:h]), 2: nap.Tsd(t, d1)}
+        if sup is None:
+            g = nap.TsGroup(mem_in, metadata={"lab": ["x", "y", "z"]})
+        else:
+            g = nap.TsGroup(mem_in, time_support=_iset(nap, sup), metadata={"lab": ["x", "y", "z"]})
+        gsup = _sup(g)
+        touch = bool(set(x for iv in gsup for x in iv) & set(x for iv in ep for x in iv))
+        rg = g.restrict(epo)
+        if res is not None:
+            res.count("group_%s" % gname)
+            res.count("group_support_touches_ep", int(touch))
+
+        def key(part, **more):
+            k = {"op": "TsGroup.restrict", "part": part, "group_support": gname, "ep_touches_group_support": touch, "empty_series": n == 0}
+            k.update(more)
+            return k
+
+        if list(rg.keys()) != [1, 2, 3] or list(rg.metadata["lab"]) != list(g.metadata["lab"]):
+            return {"key": key("keys"), "what": "keys/metadata changed", "input": inp}
+        survivors = 0
+        for k in (1, 2, 3):
+            before = _ticks(g[k].t)
+            keep = [i for i, x in enumerate(before) if G.mem(x, ep)]
+            exp_t = [before[i] for i in keep]
+            survivors += len(keep)
+            on_ep = _on_endpoint(before, ep)
+            if type(rg[k]) is not type(g[k]) or _ticks(rg[k].t) != exp_t:
+                return {"key": key("samples", sample_on_endpoint=on_ep), "what": "group.restrict(ep)[k] is not the samples of group[k] inside the closed intervals of ep",
+                        "input": inp, "member": k, "member_samples": before, "impl": _ticks(rg[k].t), "expected": exp_t}
+            if k != 3 and not np.array_equal(rg[k].values, g[k].values[keep]):
+                return {"key": key("rows", sample_on_endpoint=on_ep), "what": "a sample of a Tsd member lost its own data value", "input": inp, "member": k}
+            if _sup(rg[k]) != (list(ep) if keep else []):
+                return {"key": key("member_support", sample_on_endpoint=on_ep), "what": "time support of a restricted member is not ep (or empty when no sample survives)",
+                        "input": inp, "member": k, "impl": _sup(rg[k])}
+        if _sup(rg) != list(ep) and (survivors or _sup(rg) != []):
+            return {"key": key("support"), "what": "group support is not ep", "input": inp, "impl": _sup(rg)}
     return None
 
 
@@ -207,11 +330,13 @@ def replay(payload):
     v = payload.get("violation") or {}
     inp = v.get("input", {})
     ts, ep = inp.get("ts", []), [tuple(x) for x in inp.get("ep", [])]
+    ep2 = [tuple(x) for x in inp["ep2"]] if "ep2" in inp else None
     t, st, en = G.arr(ts), G.arr([s for s, _ in ep]), G.arr([e for _, e in ep])
     idx = list(map(int, J.jitrestrict(t, st, en)))
     print("input ts=%s ep=%s" % (ts, ep))
     print("implementation idx:", idx)
     print("expected idx      :", oracle_idx(ts, ep))
-    pv = public_case(nap, ts, ep) if ts else None
+    warnings.simplefilter("ignore")
+    pv = public_case(nap, ts, ep, ep2)
     print("public API:", pv)
     return 1 if idx != oracle_idx(ts, ep) or pv else 0
